@@ -73,6 +73,20 @@ def gen(tier, rng):
             out.append("prim %s %02x null" % (m, a))
             out.append("prim %s %02x%02x bool" % (m, a, rng.randrange(256)))
         out.append("prim %s 0000 null" % m)
+    # ---- the accessors as such, before the framework's exhaustion check (added after the mutation run:
+    # `to_null` accepting non-empty content survived because the exhaustion check rejects it anyway):
+    # what is left after the accessor, then taking it, shows what the accessor itself accepted and consumed
+    for m in modes:
+        for c in [b"", b"\x00", b"\xff", b"\x00\x00", b"\x05\x00", b"\x01\x02\x03"]:
+            out.append("prim %s %s null rem takeall" % (m, hx(c)))
+            out.append("prim %s %s rem null rem" % (m, hx(c)))
+        for c in [b"", b"\x00", b"\xff", b"\x01", b"\x00\x00", b"\xff\x01", b"\x01\x02\x03"]:
+            out.append("prim %s %s bool rem takeall" % (m, hx(c)))
+        for ty in TYS:
+            for c in [b"", b"\x00", b"\x7f", b"\x80", b"\x00\x80", b"\x00\x7f", b"\xff\x7f", b"\xff\x80", b"\x01\x02\x03",
+                      b"\x00" * (W[ty] + 1), b"\x00" + b"\xff" * W[ty], b"\x7f" + b"\xff" * (W[ty] - 1), b"\x80" + b"\x00" * (W[ty] - 1),
+                      b"\x01" * (W[ty] + 1), b"\x01" * (W[ty] + 2)]:
+                out.append("prim %s %s int %s rem takeall" % (m, hx(c), ty))
     # ---- encoders
     for ty in ("i8", "u8", "i16", "u16"):
         lo, hi = rng_of(ty)
